@@ -383,7 +383,13 @@ const knownID = "C07-corpus-attr-ignores-deleted-claims"
 func TestAttrAndDeletionSemantics(t *testing.T) {
 	evid.Check(t, 900, 8000, func(t *rapid.T) {
 		cfg := worldCfg
-		switch rapid.IntRange(0, 3).Draw(t, "pool") {
+		switch rapid.IntRange(0, 4).Draw(t, "pool") {
+		case 4: // two signers interleaving add/del claims on one multi-valued attribute of one permanode
+			cfg.ForceTwoSigners = true
+			cfg.MaxPermanodes = 1
+			cfg.MaxDeletes = 2
+			cfg.Attrs = []string{"tag"}
+			cfg.Values = []string{"a", "b", "c", "d"}
 		case 0: // few attributes, dates within one or two seconds: many claims per attribute, fractional dates
 			cfg.Attrs = []string{"tag", "title"}
 			cfg.DateSpread = rapid.IntRange(1, 2).Draw(t, "spread")
